@@ -396,3 +396,444 @@ def descr_castchain(row, rhs, ops, Wres):
                 'low %d bits in %d bits' % ('sign' if v[3] == 's' else 'zero', v[2], v[1], v[4],
                                             'sign' if want[3] == 's' else 'zero', want[2], want[4])]
     return []
+
+
+# =====================================================================================================
+# floating point
+
+FT_W = {'f32': 32, 'f64': 64}
+FT_C = {'f32': 'float', 'f64': 'double'}
+
+LIBM = {   # semantic classes of ISO C functions used as opcode implementations (name -> operand float width)
+    'fabs': {'fabsf': 32, 'fabs': 64, '__builtin_fabsf': 32, '__builtin_fabs': 64},
+    'fsqrt': {'sqrtf': 32, 'sqrt': 64, '__builtin_sqrtf': 32, '__builtin_sqrt': 64},
+    'fceil': {'ceilf': 32, 'ceil': 64, '__builtin_ceilf': 32, '__builtin_ceil': 64},
+    'ffloor': {'floorf': 32, 'floor': 64, '__builtin_floorf': 32, '__builtin_floor': 64},
+    'ftrunc': {'truncf': 32, 'trunc': 64, '__builtin_truncf': 32, '__builtin_trunc': 64},
+    # round-half-to-even in the default rounding mode; round()/roundf() round half away from zero: NOT members
+    'fnearest': {'nearbyintf': 32, 'nearbyint': 64, 'rintf': 32, 'rint': 64,
+                 '__builtin_nearbyintf': 32, '__builtin_nearbyint': 64, '__builtin_rintf': 32, '__builtin_rint': 64},
+    'fcopysign': {'copysignf': 32, 'copysign': 64, '__builtin_copysignf': 32, '__builtin_copysign': 64},
+}
+LIBM_ALL = {n: c for c, d in LIBM.items() for n in d}
+
+
+def float_slot(e, slot, W):
+    """e is the value of float slot `slot` (possibly widened to a wider float type - exact)"""
+    while e.k == 'cast' and e.x == 'FloatingCast':
+        s, d = tinfo(e.a[0].ty), tinfo(e.ty)
+        if s[0] == 'float' and d[0] == 'float' and d[1] >= s[1]:
+            e = e.a[0]
+        else:
+            return False
+    return e.k == 'var' and e.x == slot and tinfo(e.ty) == ('float', W)
+
+
+def descr_farith(row, rhs, ops):
+    W = FT_W[row['sem']['type']]
+    op = {'fadd': '+', 'fsub': '-', 'fmul': '*', 'fdiv': '/'}[row['sem']['cls']]
+    e = rhs
+    while e.k == 'cast' and e.x == 'FloatingCast':
+        e = e.a[0]
+    if e.k != 'bin':
+        raise AnalysisBroken('%s: expected a binary operator, found %r' % (row['name'], rhs))
+    probs = []
+    if e.x != op:
+        probs.append('operator is %s, specification requires %s' % (e.x, op))
+    ti = tinfo(e.ty)
+    if ti[0] != 'float' or ti[1] < W or ti[1] > 64:
+        probs.append('computed in type %s; needs the IEEE type of %d bits (or binary64 for f32, where double rounding is innocuous)' % (e.ty, W))
+    if not float_slot(e.a[0], ops[0], W):
+        probs.append('left operand is %r, expected the deeper operand %s' % (e.a[0], ops[0]))
+    if not float_slot(e.a[1], ops[1], W):
+        probs.append('right operand is %r, expected the top operand %s' % (e.a[1], ops[1]))
+    return probs
+
+
+def descr_fcmp(row, rhs, ops):
+    W = FT_W[row['sem']['type']]
+    e, _ = unwrap(rhs)
+    if e.k != 'bin':
+        raise AnalysisBroken('%s: expected a comparison, found %r' % (row['name'], rhs))
+    probs = []
+    if e.x != row['sem']['op']:
+        probs.append('comparison operator is %s, specification requires %s' % (e.x, row['sem']['op']))
+    if not float_slot(e.a[0], ops[0], W) or not float_slot(e.a[1], ops[1], W):
+        probs.append('operands are %r, %r; expected the float values of %s then %s' % (e.a[0], e.a[1], ops[0], ops[1]))
+    return probs
+
+
+def descr_fneg(row, rhs, ops):
+    W = FT_W[row['sem']['type']]
+    e = rhs
+    while e.k == 'cast' and e.x == 'FloatingCast':
+        e = e.a[0]
+    if e.k == 'un' and e.x == '-':
+        if not float_slot(e.a[0], ops[0], W):
+            return ['negates %r, expected %s' % (e.a[0], ops[0])]
+        return []
+    if e.k == 'bin':
+        return ['negation is computed arithmetically as %r - NaN payload/sign and -0 are not preserved' % (e,)]
+    raise AnalysisBroken('%s: expected unary minus, found %r' % (row['name'], rhs))
+
+
+def descr_libm(row, rhs, ops):
+    cls = row['sem']['cls']
+    W = FT_W[row['sem']['type']]
+    e = rhs
+    while e.k == 'cast' and e.x == 'FloatingCast':
+        e = e.a[0]
+    if e.k != 'call' or e.x is None:
+        raise AnalysisBroken('%s: expected a libm call, found %r' % (row['name'], rhs))
+    fam = LIBM[cls]
+    probs = []
+    if e.x not in fam:
+        other = LIBM_ALL.get(e.x)
+        what = 'a %s-class function' % other[1:] if other else 'not in the %s class' % cls[1:]
+        probs.append('calls %s (%s); the specification requires %s semantics (accepted: %s)'
+                     % (e.x, what, cls[1:], ', '.join(sorted(n for n in fam if not n.startswith('__')))))
+        return probs
+    if fam[e.x] < W:
+        probs.append('calls the binary%d function %s on a %d-bit operand (precision lost)' % (fam[e.x], e.x, W))
+    for k, a in enumerate(e.a):
+        if not float_slot(a, ops[k], W):
+            probs.append('argument %d is %r, expected %s' % (k + 1, a, ops[k]))
+    if len(e.a) != len(ops):
+        probs.append('%d arguments, expected %d' % (len(e.a), len(ops)))
+    return probs
+
+
+def descr_fconv(row, rhs, ops):
+    """promote / demote / convert"""
+    sem = row['sem']
+    cls = sem['cls']
+    if cls in ('promote', 'demote'):
+        src, dst = (32, 64) if cls == 'promote' else (64, 32)
+        e = rhs
+        n = 0
+        casts = []
+        while e.k == 'cast':
+            casts.append((e.x, e.ty))
+            e = e.a[0]
+        if e.k != 'var' or e.x != ops[0]:
+            raise AnalysisBroken('%s: expected a cast of %s, found %r' % (row['name'], ops[0], rhs))
+        bad = [c for c in casts if c[0] != 'FloatingCast']
+        if bad:
+            return ['value passes through a non-floating conversion %r' % (bad,)]
+        widths = [tinfo(t)[1] for _, t in casts]
+        if not widths or widths[0] != dst or min(widths + [src]) < min(src, dst):
+            return ['cast chain %r does not convert binary%d to binary%d in one rounding' % (casts, src, dst)]
+        return []
+    # convert
+    dstW = FT_W[sem['dst']]
+    srcW = W_OF[sem['src']]
+    e = rhs
+    fcasts = []
+    while e.k == 'cast' and e.x == 'FloatingCast':
+        fcasts.append(tinfo(e.ty)[1])
+        e = e.a[0]
+    if e.k != 'cast' or e.x != 'IntegralToFloating':
+        raise AnalysisBroken('%s: expected an integer-to-float cast, found %r' % (row['name'], rhs))
+    probs = []
+    w = tinfo(e.ty)[1]
+    if w != dstW or any(x != dstW for x in fcasts):
+        probs.append('integer is converted to binary%d (then %r), specification requires a single rounding to binary%d'
+                     % (w, fcasts, dstW))
+    m = math_value(iabs(e.a[0]))
+    if m is None or m != (sem['sign'], srcW, ops[0]):
+        probs.append('converts %r (%s), specification requires the %s interpretation of all %d bits of %s'
+                     % (e.a[0], 'unrecognised' if m is None else '%s%d(%s)' % m, _sn(sem['sign']), srcW, ops[0]))
+    return probs
+
+
+def bitcopy_function(tu, name):
+    """(param type, return type, ok) if function `name` is { T2 r; memcpy(&r, &x, sizeof r); return r; }"""
+    f = tu.functions.get(name)
+    if f is None:
+        return None
+    params = astdb.fn_params(f)
+    if len(params) != 1:
+        return None
+    pt = tu.desugar(astdb.qtype(params[0]))
+    rt = tu.desugar(astdb.qtype(f)).split('(')[0].strip()
+    body = [s for s in astdb.fn_body(f).get('inner', []) if s.get('kind')]
+    ok = False
+    copy_size = None
+    src_ok = dst_ok = False
+    local = None
+    for s in body:
+        if s.get('kind') == 'DeclStmt':
+            for d in s.get('inner', []):
+                if d.get('kind') == 'VarDecl':
+                    local = d.get('name')
+        elif s.get('kind') == 'CallExpr' and astdb.callee_name(s) in ('memcpy', '__builtin_memcpy', 'memmove'):
+            a = [ct.simplify(x, tu) for x in astdb.call_args(s)]
+            d0, _ = unwrap(a[0])
+            s0, _ = unwrap(a[1])
+            dst_ok = d0.k == 'addr' and d0.a[0].k == 'var' and d0.a[0].x == local
+            src_ok = s0.k == 'addr' and s0.a[0].k == 'var' and s0.a[0].x == params[0].get('name')
+            z, _ = unwrap(a[2])
+            if z.k == 'sizeof':
+                copy_size = _sizeof(z.x[1])
+            else:
+                copy_size = const_value(z)
+        elif s.get('kind') == 'ReturnStmt':
+            r = ct.simplify([c for c in s.get('inner', []) if c.get('kind')][0], tu)
+            ok = r.k == 'var' and r.x == local
+        else:
+            return (pt, rt, False, 'unexpected statement %s' % s.get('kind'))
+    psz, rsz = _sizeof(pt), _sizeof(rt)
+    good = ok and src_ok and dst_ok and copy_size is not None and copy_size == psz == rsz
+    return (pt, rt, good, 'copies %r bytes from a %r-byte %s into a %r-byte %s' % (copy_size, psz, pt, rsz, rt))
+
+
+def _sizeof(t):
+    ti = tinfo(t)
+    if ti[0] in ('int', 'float'):
+        return ti[1] // 8
+    return None
+
+
+def descr_reinterpret(row, rhs, ops, tu):
+    sem = row['sem']
+    e = rhs
+    if e.k != 'call' or e.x is None:
+        if e.k == 'cast':
+            return ['reinterpretation is written as a value conversion %r - the bit pattern is not preserved' % (rhs,)]
+        raise AnalysisBroken('%s: expected a call, found %r' % (row['name'], rhs))
+    info = bitcopy_function(tu, e.x)
+    if info is None:
+        raise AnalysisBroken('%s: callee %s has no analysable body' % (row['name'], e.x))
+    pt, rt, good, why = info
+    probs = []
+    want_p = ('float', FT_W[sem['src']]) if sem['src'][0] == 'f' else ('int', W_OF[sem['src']], False)
+    want_r = ('float', FT_W[sem['dst']]) if sem['dst'][0] == 'f' else ('int', W_OF[sem['dst']], False)
+    if tinfo(pt) != want_p or tinfo(rt) != want_r:
+        probs.append('%s has signature %s -> %s, specification: %s -> %s' % (e.x, pt, rt, sem['src'], sem['dst']))
+    if not good:
+        probs.append('%s is not a plain bit copy: %s' % (e.x, why))
+    a = e.a[0]
+    if not (a.k == 'var' and a.x == ops[0]):
+        probs.append('argument is %r (converted before the copy), expected %s itself' % (a, ops[0]))
+    return probs
+
+
+# ---- point evaluation over float classes -----------------------------------------------------------
+
+import math
+
+
+class UB(Exception):
+    pass
+
+
+def has_var(e):
+    return any(x.k == 'var' for x in walk_e(e))
+
+
+def fpoint(e, env):
+    """value of e with float variables bound to python floats (exact for binary32/64 values)"""
+    if e.k == 'var':
+        if e.x in env:
+            return env[e.x]
+        raise AnalysisBroken('free variable %s in template' % e.x)
+    if e.k == 'const':
+        v = e.x
+        if isinstance(v, tuple) and v[0] == 'float':
+            return float(feval(e)[0])
+        if isinstance(v, tuple) and v[0] == 'enum':
+            return v[2]
+        if isinstance(v, int):
+            return v
+        return v
+    if e.k == 'cast':
+        if not has_var(e):
+            r = feval(e)
+            if r is not None:
+                return float(r[0]) if r[1] else int(r[0])
+        v = fpoint(e.a[0], env)
+        d = tinfo(e.ty)
+        if isinstance(v, tuple):
+            return v
+        if e.x == 'FloatingCast':
+            if d[1] == 32:
+                return ct.round_to(v, 32)
+            return v
+        if e.x == 'FloatingToIntegral':
+            if v != v or v in (float('inf'), float('-inf')):
+                raise UB('conversion of %r to %s' % (v, e.ty))
+            t = int(v)
+            lo, hi = (-(1 << (d[1] - 1)), (1 << (d[1] - 1)) - 1) if d[2] else (0, (1 << d[1]) - 1)
+            if not lo <= t <= hi:
+                raise UB('conversion of %r to %s is out of range' % (v, e.ty))
+            return t
+        if e.x == 'IntegralCast' and d[0] == 'int':
+            v = int(v) & ((1 << d[1]) - 1)
+            if d[2] and v >> (d[1] - 1):
+                v -= 1 << d[1]
+            return v
+        if e.x == 'IntegralToFloating':
+            return float(v)
+        if e.x in ('IntegralToBoolean', 'FloatingToBoolean'):
+            return int(v != 0)
+        return v
+    if e.k == 'un':
+        v = fpoint(e.a[0], env)
+        if e.x == '!':
+            return int(not v)
+        if e.x == '-':
+            return -v
+        if e.x == '+':
+            return v
+    if e.k == 'bin':
+        if e.x == '&&':
+            return int(bool(fpoint(e.a[0], env)) and bool(fpoint(e.a[1], env)))
+        if e.x == '||':
+            return int(bool(fpoint(e.a[0], env)) or bool(fpoint(e.a[1], env)))
+        a, b = fpoint(e.a[0], env), fpoint(e.a[1], env)
+        if e.x in ('==', '!=', '<', '>', '<=', '>='):
+            return int({'==': a == b, '!=': a != b, '<': a < b, '>': a > b, '<=': a <= b, '>=': a >= b}[e.x])
+        if e.x in ('+', '-', '*') and not isinstance(a, tuple) and not isinstance(b, tuple):
+            r = {'+': a + b, '-': a - b, '*': a * b}[e.x]
+            d = tinfo(e.ty)
+            if d[0] == 'int':
+                r = int(r) & ((1 << d[1]) - 1)
+                if d[2] and r >> (d[1] - 1):
+                    r -= 1 << d[1]
+            return r
+    if e.k == 'cond':
+        return fpoint(e.a[1] if fpoint(e.a[0], env) else e.a[2], env)
+    if e.k == 'comma':
+        l = e.a[0]
+        if l.k == 'call' and l.x == 'trap':
+            return ('trap', trap_of(e))
+        return fpoint(e.a[1], env)
+    if e.k == 'call':
+        n = e.x or ''
+        if 'signbit' in n:
+            return int(math.copysign(1.0, fpoint(e.a[0], env)) < 0)
+        if n.startswith('__builtin_nan') or n in ('nan', 'nanf'):
+            return float('nan')
+        if 'isnan' in n:
+            v = fpoint(e.a[0], env)
+            return int(v != v)
+        if n in ('__builtin_inff', '__builtin_inf', '__builtin_huge_valf', '__builtin_huge_val'):
+            return float('inf')
+        if n == 'trap':
+            return ('trap', '?')
+    if e.k == 'sizeof':
+        return _sizeof(e.x[1])
+    raise AnalysisBroken('point evaluation: unsupported form %r' % (e,))
+
+
+def same_float(a, b):
+    if a != a and b != b:
+        return True
+    return a == b and math.copysign(1.0, a) == math.copysign(1.0, b)
+
+
+def descr_fminmax(row, rhs, ops):
+    W = FT_W[row['sem']['type']]
+    is_min = row['sem']['cls'] == 'fmin'
+    reps = [float('nan'), float('-inf'), -2.0, -1.0, -0.0, 0.0, 1.0, 2.0, float('inf')]
+    bad = []
+    n = 0
+    for x in reps:
+        for y in reps:
+            n += 1
+            if x != x or y != y:
+                want = float('nan')
+            elif x == 0 and y == 0:
+                neg = (math.copysign(1, x) < 0, math.copysign(1, y) < 0)
+                want = -0.0 if (any(neg) if is_min else all(neg)) else 0.0
+            else:
+                want = min(x, y) if is_min else max(x, y)
+            try:
+                got = fpoint(rhs, {ops[0]: x, ops[1]: y})
+            except UB as u:
+                got = 'UB: %s' % u
+            if isinstance(got, tuple) or isinstance(got, str) or not same_float(float(got), want):
+                bad.append('%s(%r, %r) yields %r, specification requires %r' % (row['name'], x, y, got, want))
+    return bad[:3], n
+
+
+def trunc_points(consts, W_src, W_dst, signed):
+    lo = -(1 << (W_dst - 1)) if signed else 0
+    hi = (1 << (W_dst - 1)) - 1 if signed else (1 << W_dst) - 1
+    pts = set()
+    seeds = [Fraction(lo - 1), Fraction(lo), Fraction(hi), Fraction(hi + 1), Fraction(0), Fraction(1), Fraction(-1),
+             Fraction(1, 2), Fraction(-1, 2)] + list(consts)
+    for s in seeds:
+        try:
+            f = ct._frac_to_f32(s) if W_src == 32 else float(s)
+        except OverflowError:
+            continue
+        if f in (float('inf'), float('-inf')) or f != f:
+            continue
+        cur = f
+        up = f
+        pts.add(f)
+        for _ in range(3):
+            cur = ct.next_down(cur, W_src)
+            up = ct.next_up(up, W_src)
+            pts.add(cur)
+            pts.add(up)
+    big = ct.float_from_bits(0x7f7fffff, 32) if W_src == 32 else ct.float_from_bits(0x7fefffffffffffff, 64)
+    pts |= {big, -big, float('inf'), float('-inf'), float('nan'), 0.0, -0.0}
+    return sorted(pts, key=lambda v: (v != v, v)), lo, hi
+
+
+def descr_trunc(row, rhs, ops):
+    sem = row['sem']
+    W_src, W_dst = FT_W[sem['src']], W_OF[sem['dst']]
+    signed = sem['sign'] == 's'
+    consts = []
+    for x in walk_e(rhs):
+        if not has_var(x) and x.k in ('const', 'cast', 'un', 'bin'):
+            r = feval(x)
+            if r is not None:
+                consts.append(r[0])
+    # the conversion itself: innermost FloatingToIntegral must target the W_dst-bit type of the row's signedness
+    probs = []
+    f2i = [x for x in walk_e(rhs) if x.k == 'cast' and x.x == 'FloatingToIntegral']
+    if len(f2i) != 1:
+        raise AnalysisBroken('%s: expected exactly one float-to-integer conversion, found %d in %r' % (row['name'], len(f2i), rhs))
+    d = tinfo(f2i[0].ty)
+    if d != ('int', W_dst, signed):
+        probs.append('truncates into %s; specification requires a %s %d-bit result' % (f2i[0].ty, _sn(sem['sign']), W_dst))
+    if not float_slot(f2i[0].a[0], ops[0], W_src):
+        probs.append('truncates %r, expected %s' % (f2i[0].a[0], ops[0]))
+    pts, lo, hi = trunc_points(consts, W_src, W_dst, signed)
+    mask = (1 << W_dst) - 1
+    n = 0
+    for x in pts:
+        n += 1
+        if x != x:
+            want = ('trap', TRAP_INVALID) if not sem['sat'] else 0
+        elif x in (float('inf'), float('-inf')) or not lo <= int(x) <= hi:
+            if sem['sat']:
+                want = (lo if x < 0 else hi) & mask
+            else:
+                want = ('trap', TRAP_OVERFLOW)
+        else:
+            want = int(x) & mask
+        try:
+            got = fpoint(rhs, {ops[0]: x})
+            if not isinstance(got, tuple):
+                got = int(got) & mask
+        except UB as u:
+            got = 'undefined behaviour (%s)' % u
+        if got != want:
+            probs.append('%s at %s (0x%X): yields %s, specification requires %s'
+                         % (row['name'], repr(x), ct.float_bits(x, W_src), _show(got), _show(want)))
+            if len(probs) >= 3:
+                break
+    return probs, n
+
+
+def _show(v):
+    if isinstance(v, tuple):
+        return 'trap %s' % v[1]
+    if isinstance(v, int):
+        return '0x%X' % v
+    return str(v)
